@@ -5,6 +5,7 @@ import (
 	"fmt"
 	"math"
 	"math/rand"
+	"strconv"
 	"strings"
 
 	"github.com/mattn/anko/ast"
@@ -235,6 +236,73 @@ func streamOps(o *Out, r *rand.Rand, n int, thorough bool) {
 				if af, ok := a.(float64); ok && op == "-" && !out.panicked && out.err == nil {
 					if !sameValue(-af, out.val) {
 						o.Fail(Failure{Oracle: "go-arithmetic", Key: "unary:" + op, Input: fmt.Sprintf("%s%v (mode %d)", op, a, m), Detail: fmt.Sprintf("Go computes %v; interpreter gave %v (%T)", -af, out.val, out.val)})
+					}
+				}
+			}
+		}
+	}
+	// 1b. "carried out in float64 as soon as one operand is a float": a float against every value of the pool, both orders;
+	// when the operator yields a value at all it is a float64 (string repetition and list append aside), and when the
+	// other operand denotes a number (numeric string, bool) it is the float64 result on that number
+	for _, op := range []string{"-", "*", "+"} {
+		for _, f := range []float64{0.5, -2.25, 7.75, 1e18} {
+			for _, other := range vals.All() {
+				// the property quantifies over int64, float64 and string operands
+				switch other.(type) {
+				case int64, float64:
+				case string:
+					if op != "-" {
+						continue // + concatenates, * repeats
+					}
+				default:
+					continue
+				}
+				var denotes *float64
+				switch x := other.(type) {
+				case int64:
+					v := float64(x)
+					denotes = &v
+				case float64:
+					denotes = &x
+				case bool:
+					v := 0.0
+					if x {
+						v = 1
+					}
+					denotes = &v
+				case string:
+					if decFloatRe.MatchString(x) || decIntRe.MatchString(x) {
+						if v, err := strconv.ParseFloat(x, 64); err == nil {
+							denotes = &v
+						}
+					}
+				}
+				for order := 0; order < 2; order++ {
+					var a, b interface{} = f, other
+					if order == 1 {
+						a, b = other, f
+					}
+					t := &tnode{op: op, l: &tnode{val: a}, r: &tnode{val: b}}
+					out := emit(t, "float-against-pool")
+					if out.panicked || out.err != nil {
+						continue
+					}
+					got, isFloat := out.val.(float64)
+					if !isFloat {
+						o.Fail(Failure{Oracle: "float-as-soon-as-one-operand-is", Key: "float-result-kind:" + op, Input: fmt.Sprintf("%v (%T) %s %v (%T)", a, a, op, b, b),
+							Detail: fmt.Sprintf("one operand is a float64 but the result is %v (%T)", out.val, out.val)})
+						continue
+					}
+					if denotes != nil {
+						x, y := f, *denotes
+						if order == 1 {
+							x, y = *denotes, f
+						}
+						want := map[string]float64{"-": x - y, "*": x * y, "+": x + y}[op]
+						if !sameValue(want, got) {
+							o.Fail(Failure{Oracle: "float-as-soon-as-one-operand-is", Key: "float-result-value:" + op, Input: fmt.Sprintf("%v (%T) %s %v (%T)", a, a, op, b, b),
+								Detail: fmt.Sprintf("in float64 the result is %v; the interpreter gave %v", want, got)})
+						}
 					}
 				}
 			}
